@@ -108,7 +108,7 @@ static void result_emit(Result *r, Buf *o) {
                "\"short_reads\":%llu,\"short_writes\":%llu,\"eintrs\":%llu,\"blocked_writes\":%llu,\"blocked_reads\":%llu,"
                "\"sigpipe_kills\":%llu,\"epipes\":%llu,\"econnresets\":%llu,\"eofs\":%llu,\"conn_refused\":%llu,\"backlog_waits\":%llu,"
                "\"forks\":%llu,\"execs\":%llu,\"exec_fails\":%llu,\"waitpid_nohang_zero\":%llu,\"kills\":%llu,\"zombie_delays\":%llu,"
-               "\"poll_timeouts\":%llu,\"sleeps\":%llu,\"mutex_contended\":%llu,\"threads\":%llu,\"flock_contended\":%llu,\"img_swaps\":%llu}",
+               "\"poll_timeouts\":%llu,\"sleeps\":%llu,\"mutex_contended\":%llu,\"threads\":%llu,\"flock_contended\":%llu,\"img_swaps\":%llu,\"accept_fails\":%llu}",
                (unsigned long long)S.steps, (unsigned long long)S.switches, (unsigned long long)S.preempts, (unsigned long long)S.blocks,
                (unsigned long long)vm_instrs,
                (unsigned long long)S.short_reads, (unsigned long long)S.short_writes, (unsigned long long)S.eintrs,
@@ -118,7 +118,7 @@ static void result_emit(Result *r, Buf *o) {
                (unsigned long long)S.forks, (unsigned long long)S.execs, (unsigned long long)S.exec_fails,
                (unsigned long long)S.waitpid_nohang_zero, (unsigned long long)S.kills, (unsigned long long)S.zombie_delays,
                (unsigned long long)S.poll_timeouts, (unsigned long long)S.sleeps, (unsigned long long)S.mutex_contended,
-               (unsigned long long)S.threads_created, (unsigned long long)S.flock_contended, (unsigned long long)S.img_swaps);
+               (unsigned long long)S.threads_created, (unsigned long long)S.flock_contended, (unsigned long long)S.img_swaps, (unsigned long long)S.accept_fails);
     buf_printf(o, ",\"probes\":{%.*s}", (int)r->probes.len, r->probes.d ? (char *)r->probes.d : "");
     if (r->extra.len) buf_printf(o, ",%.*s", (int)r->extra.len, (char *)r->extra.d);
     buf_printf(o, "}\n");
@@ -131,16 +131,16 @@ void default_knobs(void) {
 }
 void knobs_print(Buf *b) {
     buf_printf(b, "knob preempt_mean %d\nknob sched_policy %d\nknob pct_depth %d\nknob sock_cap %d\nknob pipe_cap %d\n"
-               "knob short_read_pm %d\nknob short_write_pm %d\nknob eintr_pm %d\nknob zombie_delay_us %d\nknob stack_mode %d\nknob max_steps %llu\nknob max_blocks %llu\n",
+               "knob short_read_pm %d\nknob short_write_pm %d\nknob eintr_pm %d\nknob zombie_delay_us %d\nknob accept_fail_pm %d\nknob stack_mode %d\nknob max_steps %llu\nknob max_blocks %llu\n",
                K.preempt_mean, K.sched_policy, K.pct_depth, K.sock_cap, K.pipe_cap, K.short_read_pm, K.short_write_pm,
-               K.eintr_pm, K.zombie_delay_us, K.stack_mode, (unsigned long long)K.max_steps, (unsigned long long)K.max_blocks);
+               K.eintr_pm, K.zombie_delay_us, K.accept_fail_pm, K.stack_mode, (unsigned long long)K.max_steps, (unsigned long long)K.max_blocks);
 }
 bool knobs_parse_line(const char *line) {
     char name[32]; long long v;
     if (sscanf(line, "knob %31s %lld", name, &v) != 2) return false;
 #define KN(f) if (strcmp(name, #f) == 0) { K.f = (__typeof__(K.f))v; return true; }
     KN(preempt_mean) KN(sched_policy) KN(pct_depth) KN(sock_cap) KN(pipe_cap) KN(short_read_pm) KN(short_write_pm)
-    KN(eintr_pm) KN(zombie_delay_us) KN(stack_mode) KN(max_steps) KN(max_blocks)
+    KN(eintr_pm) KN(zombie_delay_us) KN(accept_fail_pm) KN(stack_mode) KN(max_steps) KN(max_blocks)
     return true;
 }
 
